@@ -114,8 +114,98 @@ def generate():
     item("Chef tables", chef_tables,
          "def chefCookbook : List (String × Option String) := []\ndef chefCookfields : List (String × String) := []")
 
+    # ---- structural tables over every module of the package
+    def structure():
+        sw, unordered, nonF = static_tables()
+        a = "def swallowedWriteSites : List (String × String × String) := [" + ", ".join(
+            f"({_s(f)}, {_s(fn)}, {_s(w)})" for f, fn, w in sw) + "]"
+        b = "def unorderedPoolCalls : List (String × String) := [" + ", ".join(f"({_s(f)}, {_s(fn)})" for f, fn in unordered) + "]"
+        c = "def nonFortranReshapes : List (String × String × String) := [" + ", ".join(
+            f"({_s(f)}, {_s(fn)}, {_s(k)})" for f, fn, k in nonF) + "]"
+        return a + "\n" + b + "\n" + c
+    item("structural tables", structure,
+         "def swallowedWriteSites : List (String × String × String) := [(\"?\", \"?\", \"?\")]\n"
+         "def unorderedPoolCalls : List (String × String) := []\ndef nonFortranReshapes : List (String × String × String) := []")
+
     out += ["", "end Generated", ""]
     return "\n".join(out), missing
+
+
+WRITE_ATTRS = {"write", "writelines", "tofile", "dump", "save", "savez", "savez_compressed", "savefig", "makedirs", "mkdir",
+               "rmtree", "remove", "rename", "copy", "copytree", "move"}
+
+
+def _write_call(n):
+    if not isinstance(n, ast.Call):
+        return None
+    f = n.func
+    if isinstance(f, ast.Attribute) and f.attr in WRITE_ATTRS:
+        return f.attr
+    if isinstance(f, ast.Name) and f.id == "open":
+        mode = None
+        if len(n.args) > 1 and isinstance(n.args[1], ast.Constant):
+            mode = n.args[1].value
+        for k in n.keywords:
+            if k.arg == "mode" and isinstance(k.value, ast.Constant):
+                mode = k.value.value
+        if mode and any(c in str(mode) for c in "wax+"):
+            return "open-w"
+    return None
+
+
+def _swallows(handler):
+    t = handler.type
+    if t is None:
+        names = ["<bare>"]
+    elif isinstance(t, ast.Name):
+        names = [t.id]
+    elif isinstance(t, ast.Tuple):
+        names = [e.id for e in t.elts if isinstance(e, ast.Name)]
+    else:
+        names = []
+    broad = any(n in ("<bare>", "Exception", "BaseException", "OSError", "IOError", "EnvironmentError") for n in names)
+    reraises = any(isinstance(x, ast.Raise) for x in ast.walk(handler))
+    return broad and not reraises
+
+
+def static_tables():
+    """(write-side calls inside try blocks that swallow I/O errors, imap_unordered call sites,
+    reshape/flatten calls without order='F') over every module of amr_kitchen"""
+    sw, unordered, nonF = [], [], []
+    pkg = os.path.join(REPO, "amr_kitchen")
+    for root, _, files in sorted(os.walk(pkg)):
+        for fn in sorted(files):
+            if not fn.endswith(".py"):
+                continue
+            p = os.path.join(root, fn)
+            rel = os.path.relpath(p, REPO)
+            t = ast.parse(open(p).read())
+            parents = {}
+            for n in ast.walk(t):
+                for c in ast.iter_child_nodes(n):
+                    parents[c] = n
+
+            def func_of(n):
+                while n in parents:
+                    n = parents[n]
+                    if isinstance(n, (ast.FunctionDef, ast.AsyncFunctionDef)):
+                        return n.name
+                return "<module>"
+            for n in ast.walk(t):
+                if isinstance(n, ast.Try) and any(_swallows(h) for h in n.handlers):
+                    for b in n.body:
+                        for c in ast.walk(b):
+                            w = _write_call(c)
+                            if w:
+                                sw.append((rel, func_of(n), w))
+                if isinstance(n, ast.Call) and isinstance(n.func, ast.Attribute):
+                    if n.func.attr == "imap_unordered":
+                        unordered.append((rel, func_of(n)))
+                    if n.func.attr in ("reshape", "flatten"):
+                        o = [k.value.value for k in n.keywords if k.arg == "order" and isinstance(k.value, ast.Constant)]
+                        if (o[0] if o else None) != "F":
+                            nonF.append((rel, func_of(n), n.func.attr))
+    return sorted(set(sw)), sorted(set(unordered)), sorted(set(nonF))
 
 
 def regenerate():
